@@ -660,7 +660,11 @@ func (device *AbacoUDPReceiver) samplePackets(maxSampleTime time.Duration) (allP
 
 // stop closes the UDP connection
 func (device *AbacoUDPReceiver) stop() error {
-	err := device.conn.Close()
+	conn := device.conn
+	if conn == nil {
+		return nil // never started (or start failed): nothing to close
+	}
+	err := conn.Close()
 	close(device.sendmore)
 	return err
 }
@@ -838,7 +842,8 @@ func (as *AbacoSource) Sample() error {
 		allpackets []*packets.Packet
 		err        error
 	}
-	sampleResults := make(chan SampleResult)
+	// Buffered, so that no sampling goroutine stays blocked if we return early on the first error.
+	sampleResults := make(chan SampleResult, len(as.producers))
 	timeout := 2000 * time.Millisecond
 	for _, pp := range as.producers {
 		go func(pp PacketProducer) {
@@ -1223,6 +1228,13 @@ func (as *AbacoSource) distributeData(buffersMsg AbacoBuffersType) *dataBlock {
 	block.externalTriggerRowcounts = externalTriggers
 
 	return block
+}
+
+// releaseAfterFailedStart closes the devices that Sample opened when Start fails after that point
+// (e.g., a UDP receiver is configured but no packets arrive yet, so no channels are found).
+// Without this the sockets stay bound and the next Start fails with "address already in use".
+func (as *AbacoSource) releaseAfterFailedStart() {
+	as.closeDevices()
 }
 
 // closeDevices ends closes the ring buffers of all active AbacoRing objects and all UDP servers.
